@@ -1053,6 +1053,9 @@ func ruleG8(c *Ctx) *RuleResult {
 // rangeIndexOver: idx is the index variable of a range-over-slice loop (phi −1, +1); returns the ranged slice
 // (the operand of the len() that bounds the loop).
 func rangeIndexOver(idx ssa.Value) (bool, ssa.Value) {
+	if ok, over := countedIndexOver(idx); ok {
+		return true, over
+	}
 	add, ok := idx.(*ssa.BinOp)
 	if !ok || add.Op != token.ADD {
 		return false, nil
@@ -1197,4 +1200,46 @@ func ruleG9(c *Ctx) *RuleResult {
 	}
 	r.Instances = n
 	return r
+}
+
+
+// countedIndexOver: idx is the induction variable of `for i := 0; i < len(X); i++` (a phi of 0 and itself + 1 whose
+// loop condition compares it with len(X)): the hand-written form of a range over X.
+func countedIndexOver(idx ssa.Value) (bool, ssa.Value) {
+	phi, ok := idx.(*ssa.Phi)
+	if !ok {
+		return false, nil
+	}
+	zero, step := false, false
+	for _, e := range phi.Edges {
+		if k, ok := constInt(e); ok && k == 0 {
+			zero = true
+			continue
+		}
+		if add, ok := e.(*ssa.BinOp); ok && add.Op == token.ADD && add.X == ssa.Value(phi) {
+			if k, ok := constInt(add.Y); ok && k == 1 {
+				step = true
+				continue
+			}
+		}
+		return false, nil
+	}
+	if !zero || !step || phi.Referrers() == nil {
+		return false, nil
+	}
+	for _, ref := range *phi.Referrers() {
+		bo, ok := ref.(*ssa.BinOp)
+		if !ok || bo.Op != token.LSS || bo.X != ssa.Value(phi) {
+			continue
+		}
+		if lc, ok := bo.Y.(*ssa.Call); ok {
+			if b, ok := lc.Call.Value.(*ssa.Builtin); ok && b.Name() == "len" {
+				// the comparison must be the loop condition: its block ends in an If on it
+				if iff, ok := bo.Block().Instrs[len(bo.Block().Instrs)-1].(*ssa.If); ok && iff.Cond == ssa.Value(bo) {
+					return true, lc.Call.Args[0]
+				}
+			}
+		}
+	}
+	return false, nil
 }
